@@ -115,7 +115,24 @@ func Semantic(j *job.Job, s *job.Sink) {
 		for _, m := range regexp.MustCompile(`import \S+ \{ prefix (\S+); \}`).FindAllStringSubmatch(t, -1) {
 			impPfx = append(impPfx, m[1])
 		}
-		switch r.Intn(17) {
+		switch r.Intn(18) {
+		case 17:
+			// an enum without a value after the highest value there is: the error names that
+			// enum, not the one that holds the maximum (which may stand one or two enums back)
+			mid := ""
+			if r.Intn(2) == 0 {
+				mid = "      enum mid {\n        value 5;\n      }\n"
+			}
+			body := "    type enumeration {\n      enum low;\n      enum hi {\n        value 2147483647;\n      }\n" + mid + "      enum next;\n    }\n"
+			ins := "  leaf zzen {\n" + body + "  }\n"
+			if r.Intn(2) == 0 {
+				ins = "  typedef zzent {\n" + body + "  }\n"
+			}
+			if k := strings.LastIndex(t, "}"); k > 0 {
+				t = t[:k] + ins + t[k:]
+				desig = k + strings.Index(ins, "enum next")
+				fault, want = "enum without a value after the highest value", []string{"enum"}
+			}
 		case 16:
 			// a deviate that cannot be applied (it deletes a default the leaf does not have), in
 			// a deviating module added to the set, now and then next to a second one of the same
